@@ -42,10 +42,15 @@ META = {
     "equality, resolution of rotated boxes) are captured from the real run (spies of harness/c11.py at public names; "
     "when the fit is not intercepted the exact comparison of fit requests is skipped with a note).  Integer-indexing "
     "a spatial axis of a >2-D array is outside the statement.  xr_reproject_crs_history is proved for axis-aligned "
-    "sources (rotated sources: xr_reproject_crs_geobox with the explicit side condition on the identity path).  "
-    "Known-finding candidates reported, not claimed: xr_zeros(time=<str>) sizes the array by len(str) "
-    "(xr_zeros_scalar_time_cex); GeoTransform is stale after slicing when labels are dropped "
-    "(dropped_coords_stale_cex).",
+    "sources and xr_reproject_crs_history_any for every linear source outside the 1e-10 tolerance band (rotated / sheared "
+    "included, no side condition); the Dataset-level recovery hypothesis of xr_reproject_ds_crs is discharged for Datasets "
+    "whose variables share dims and coordinates (ds_view_recover, xr_reproject_ds_crs_shared; a Dataset with additional "
+    "non-registered variables keeps the hypothesis).  The nodata range check of _xr_reproject_da (3030d9b) is modelled "
+    "(nodata_range_check) and tied incl. lazy dask sources.  Known findings (registered, printed as KNOWN-FINDING): "
+    "xr-zeros|scalar-time (repaired on branch fix3-C09; the harness probes the behaviour and switches between the as-found "
+    "and the repaired model), survives|dropped-coords|stale-geotransform (GeoTransform not updated by slicing; "
+    "dropped_coords_stale_cex), reproject|gcp-source|dask (dask warp asserts a linear source).  Integer shape requests "
+    "are judged by the oracle only (pixel count decided by IEEE rounding at a ceil decision).",
     "technique": "Lean 4 proof over hand model + differential correspondence with real code and real xarray",
     "inventory": "Modelled (Model/C09.lean, C09Reproject.lean, C09Glue.lean): spatial_dims, _mk_crs_coord/_extract_crs/"
     "_extract_geo_transform/_extract_gcps (as the parsed CrsCoord record), _coord_to_xr/_mk_pixel_coord/xr_coords (linear + GCP), "
@@ -58,7 +63,7 @@ META = {
     "presence flags, assembly), _xr_reproject_ds/_maybe_reproject (incl. per-variable CRS guard and keyword travel), "
     "ODCExtensionDa.nodata, _xarray_geobox/register_geobox, xarray isel/arith/astype/pickle/copy/drop_vars as ops.  NOT modelled: "
     "resolution_from_affine's rotated branch (decompose_rws, needs sqrt; enters as a captured witness), Poly2d.fit / GCPMapping "
-    "(pix2wld of GCP boxes: sampled), GCP sources through xr_reproject(<CRS>) (model branch exists, not generated), mask / crop / "
+    "(pix2wld of GCP boxes: sampled; GCP sources ARE generated through xr_reproject(<CRS>) numpy-backed, their source resolution enters as a witness), mask / crop / "
     "rasterize / colorize / to_rgba / explore / write_cog wrappers (not part of the claim), ODCExtension accessor caching (exercised "
     "through the touched-accessor round trips), the VALUE of nodata (maybe_int of dst_nodata), the warp itself (rio_reproject / "
     "_dask_rio_reproject), ydim/xdim for non-adjacent spatial dims beyond the assert, non-numeric spatial coordinates (TypeError).",
@@ -662,7 +667,7 @@ def run(R: Run):
                        "correspondence stream is skipped; GCP boxes stay covered by the public-API oracles of the float stream")
     small_shapes = [(1, 1), (1, 5), (5, 1), (2, 2), (1, 2), (2, 1), (3, 4)]
     cases = [(k, s) for k in kinds[:4] + ["tiny-rot"] for s in small_shapes]
-    for _ in range(R.pick(300, 3000)):
+    for _ in range(R.pick(220, 3000)):
         cases.append((rng.choice(exact_kinds), None))
     names = ["spatial_ref", "spatial_ref", "crs", "foo", "ref_1"]
     for kind, shp in cases:
@@ -697,7 +702,8 @@ def run(R: Run):
             if not ops:
                 roundtrip_eq_oracle(R, g, box[1], case, exact=True)
             location_oracle(R, g, box[1], ops, dims, sizes, case, list_s(ops, op_s), exact=True)
-            roundtrip_oracle(R, g, box[1], case)
+            if not R.quick or len(R.lines) % 2 == 0:
+                roundtrip_oracle(R, g, box[1], case)
             # ... and after every step of the history, not only at its end
             if ops and len(ops) <= 6:
                 cur = box[0]
@@ -709,7 +715,7 @@ def run(R: Run):
                     location_oracle(R, g, cur, ops[:k], dims, sizes, dict(case, step=k), list_s(ops[:k], op_s), exact=True)
 
     # --- float stream: arbitrary doubles, oracle only
-    for _ in range(R.pick(340, 3400)):
+    for _ in range(R.pick(250, 3400)):
         kind = rng.choice(kinds + ["tiny-rot"])  # `kinds` already holds tiny-rot and small-angle once
         g = gcp_geobox(rng, mods, exact=False) if kind == "gcp" else float_geobox(rng, Affine, GeoBox, kind)
         big = max(g.shape) > 100
@@ -878,7 +884,18 @@ def wrap_args_part(R: Run, mods):
                      sig=f"wrapxr|rank{len(shape)}")
             R.oracle(tuple(xx.shape[xx.odc.ydim:xx.odc.ydim + 2]) == tuple(g.shape) and xx.odc.xdim == xx.odc.ydim + 1,
                      "wrap-xr|spatial-axes", case, f"dims {xx.dims} shape {xx.shape}")
-    # xr_zeros
+    # xr_zeros.  A single time stamp: wrap_xr accepts it (one-step time axis); xr_zeros must as well (known finding
+    # `xr-zeros|scalar-time` on trees without the repair of branch fix3-C09: the array is sized by len(str)).
+    # The model has both behaviours (`zeros` as found, `zerosfix` as repaired); which one the tree has is probed.
+    try:
+        z = oxr.xr_zeros(g0, time="2020-01-01")
+        zeros_fixed = tuple(z.shape) == (1, *g0.shape) and z.odc.geobox == g0
+        what = f"shape {tuple(z.shape)}"
+    except Exception as e:  # pylint: disable=broad-except
+        zeros_fixed, what = False, f"{type(e).__name__}: {str(e)[:120]}"
+    R.oracle(zeros_fixed, "xr-zeros|scalar-time", {"call": "xr_zeros(GeoBox((3,4), Affine(2,0,10,0,-2,20), 'EPSG:3857'), time='2020-01-01')"},
+             f"wrap_xr(im, gbox, time='2020-01-01') gives a one-step time axis but xr_zeros(gbox, time='2020-01-01') -> {what}")
+    zeros_op = "zerosfix" if zeros_fixed else "zeros"
     for _ in range(R.pick(40, 400)):
         g = rng.choice(boxes)
         ttok = rng.choice(["N", "N", "s:10", "l:1", "l:2", "l:3", "d:2"])
@@ -886,12 +903,12 @@ def wrap_args_part(R: Run, mods):
         nodata = rng.random() < 0.4
         attrs = [k for k in ("units", "keep") if rng.random() < 0.3]
         dask = rng.random() < 0.3
-        line = f"c09 zeros {src_s(g)} {ttok} {opt_s(cn)} {'T' if nodata else 'F'} {list_s(attrs)}"
+        line = f"c09 {zeros_op} {src_s(g)} {ttok} {opt_s(cn)} {'T' if nodata else 'F'} {list_s(attrs)}"
 
         def f():
             kw = {"nodata": rng.choice([0, 7])} if nodata else {}
             ny, nx = g.shape
-            nt = None if ttok == "N" else (10 if ttok.startswith("s") else int(ttok.split(":")[1]))
+            nt = None if ttok == "N" else ((1 if zeros_fixed else 10) if ttok.startswith("s") else int(ttok.split(":")[1]))
             chunks = None if not dask else ((1, ny, nx) if nt is not None else (ny, nx))
             xx = oxr.xr_zeros(g, dtype="uint8", chunks=chunks, time=time_arg(ttok), crs_coord_name=cn, **kw, **{k: "v" for k in attrs})
             return w_s(xx)
@@ -951,7 +968,7 @@ def recovery_glue_part(R: Run, mods):
     Affine, GeoBox, GCPGeoBox, GCPMapping, oxr, xy_ = mods
     rng = R.rng
     kinds = ["north-up", "mirrored", "rotated", "sheared"] + (["gcp"] if gcp_private(gcp_geobox(__import__("random").Random(1), mods, exact=True)) is not None else [])
-    for _ in range(R.pick(60, 600)):
+    for _ in range(R.pick(24, 600)):
         kind = rng.choice(kinds)
         g = gcp_geobox(rng, mods, exact=True) if kind == "gcp" else exact_geobox(rng, Affine, GeoBox, kind)
         nt = rng.choice([None, None, 2])
@@ -974,6 +991,29 @@ def recovery_glue_part(R: Run, mods):
             return rec_s(yy.odc.geobox)
 
         R.corr(line, f, sig=f"rtdrop|{klass(g)}|{'crs' if g.crs is not None else 'nocrs'}|drop{len(drop)}|ops{min(len(ops), 2)}")
+        if box and ops and g.crs is not None and kind != "gcp":
+            # the property itself on label-less arrays: every kept pixel still where it was.  Fails whenever the history
+            # moved the origin or the stride: the GeoTransform on the CRS coordinate is not touched by slicing
+            # (known finding `survives|dropped-coords|stale-geotransform`, Lean: dropped_coords_stale_cex)
+            idx = orig_index(ops, dims, sizes)
+            r = None
+            try:
+                r = box[0].odc.geobox
+            except Exception:  # pylint: disable=broad-except
+                pass
+            iy, ix = idx.get(yd), idx.get(xd)
+            if r is not None and iy is not None and ix is not None and len(iy) and len(ix) and tuple(r.shape) == (len(iy), len(ix)):
+                bad = None
+                for i in sorted({0, len(iy) - 1}):
+                    for j in sorted({0, len(ix) - 1}):
+                        got = fr_apply(r.affine, Fraction(2 * j + 1, 2), Fraction(2 * i + 1, 2))
+                        want = fr_apply(g.affine, Fraction(2 * int(ix[j]) + 1, 2), Fraction(2 * int(iy[i]) + 1, 2))
+                        if got != want and bad is None:
+                            bad = (i, j, int(iy[i]), int(ix[j]), tuple(map(float, got)), tuple(map(float, want)))
+                R.oracle(bad is None, "survives|dropped-coords|stale-geotransform", {"line": line},
+                         f"labels dropped after {list_s(ops, op_s)}: pixel (row,col)={bad[:2] if bad else None} (original "
+                         f"{bad[2:4] if bad else None}) is mapped to {bad[4] if bad else None} but was at {bad[5] if bad else None}",
+                         sig="rtdrop|location")
         if box and not ops and g.crs is not None and kind != "gcp":
             # without a history the stored GeoTransform is the grid of the array: the original GeoBox comes back,
             # rotated ones included
@@ -1011,7 +1051,7 @@ def recovery_glue_part(R: Run, mods):
             if t != "-":
                 attrs[key] = vals[t]
 
-    for _ in range(R.pick(80, 800)):
+    for _ in range(R.pick(30, 800)):
         as_ds = rng.random() < 0.4
         single = rng.random() < 0.7
         one = rng.choice(["s3857", "c3857", "s4326", "c32633"])
@@ -1169,6 +1209,25 @@ def grid_kw(rng, c11, c11mods, base, same_units, allow_shape=True):
     return grid_kw_of(c11, c11mods, choice)
 
 
+def nodata_token(arr, attrs, extra, dst_nodata) -> str:
+    """`srcKw;dstKw;attr;lo;hi` for the model of the nodata range check: the keyword values, what `.odc.nodata` reads from
+    the attributes, and the value range of the pixel type (numpy.iinfo / finfo — independent of odc-geo)"""
+    def t(v):
+        return "N" if v is None else frac_s(v)
+
+    attr = attrs.get("nodata")
+    if attr is None:
+        attr = attrs.get("_FillValue")
+    dt = np.dtype(arr.dtype)
+    if dt.kind in "iu":
+        lo, hi = int(np.iinfo(dt).min), int(np.iinfo(dt).max)
+    elif dt.kind == "f":
+        lo, hi = float(np.finfo(dt).min), float(np.finfo(dt).max)
+    else:
+        lo = hi = None
+    return ";".join([t(extra.get("src_nodata")), t(dst_nodata), t(attr), t(lo), t(hi)])
+
+
 def proj_tokens(c11, gb, how, spy, subst):
     """what pyproj contributes to one output_geobox call, as driver tokens: dst crs, same-units, source resolution witness,
     footprint bbox, centre-pixel box, fit scale"""
@@ -1274,10 +1333,11 @@ def reproject_crs_part(R: Run, mods):
             line = f"c09 outgbx {head} {ptoks} {gtoks} {'T' if full else 'F'}"
         elif kind == "da":
             line = (f"c09 reprcrs {head} {list_s(attr_keys)} N {ptoks} {gtoks} {list_s(etoks)} {'T' if dst_nodata is not None else 'F'} "
-                    f"{list_s(post, op_s)} {'T' if full else 'F'}")
+                    f"{list_s(post, op_s)} {'T' if full else 'F'} {nodata_token(arr, attrs, extra, dst_nodata)}")
         else:
             line = (f"c09 reprcrsds {head} {list_s(attr_keys)} {list_s(dsattrs)} {cn if 'grid_mapping' in dsattrs else 'N'} "
-                    f"{'T' if extra_var else 'F'} N {ptoks} {gtoks} {list_s(etoks)} {'T' if full else 'F'}")
+                    f"{'T' if extra_var else 'F'} N {ptoks} {gtoks} {list_s(etoks)} {'T' if full else 'F'} "
+                    f"{nodata_token(arr, attrs, extra, None)}")
         case["line"] = line
         path = ("err" if real.startswith("ERR") else "own-crs" if own else "x-crs")
         optsig = ("tight" if kw.get("tight") else "snap") + "+" + (c11.anchor_s(kw["anchor"]).split(":")[0] if False else
@@ -1288,7 +1348,26 @@ def reproject_crs_part(R: Run, mods):
         fit_expected = (gb is not None and gb.crs is not None and kw.get("shape") is None
                         and not (box and kind == "og" and box[0] is gb)
                         and (res_kw == "fit" or (isinstance(res_kw, str) and res_kw == "auto" and not c11.share_units(gb.crs, dc))))
-        if fit_expected and not (spy.fit_recorded() if box else c11.fit_interception_works(c11mods)):
+        src_res_used = (gb is not None and gb.crs is not None and kw.get("shape") is None
+                        and (res_kw == "same" or (isinstance(res_kw, str) and res_kw == "auto" and c11.share_units(gb.crs, dc))))
+        if isinstance(kw.get("shape"), int) and not real.startswith("ERR"):
+            # a single-integer shape derives the pixel size as span / n and then counts pixels with ceil(span / size): the
+            # count sits ON a ceil decision and is decided by IEEE rounding of the quotient (same guard as in harness/c11.py)
+            R.count("reproject-args:int-shape|oracle-only")
+        elif is_gcp(src) and src_res_used:
+            # the resolution of a GCP box is an estimate in doubles (not dyadic): the grid built from it is judged by the
+            # oracle below, not compared exactly
+            R.count("reproject-args:gcp-source-resolution|oracle-only")
+            if not kw:
+                # no option at all: the call must succeed and give a linear grid in the requested CRS (never the GCP box)
+                ok = bool(box) and not real.startswith("ERR")
+                if ok and kind == "og":
+                    ok = (not is_gcp(box[0])) and box[0].crs == dc
+                elif ok:
+                    r0 = (box[0]["a"] if kind == "ds" else box[0]).odc.geobox
+                    ok = r0 is not None and not is_gcp(r0) and r0.crs == dc
+                R.oracle(ok, "reproject|gcp-source|result", case, f"GCP source, {how!r}, default options: {real[:120]}")
+        elif fit_expected and not (spy.fit_recorded() if box else c11.fit_interception_works(c11mods)):
             # the centre-pixel fit did not run through the public names the spy substitutes: no exact comparison
             R.count("reproject-args:skipped-fit-not-intercepted")
             if not any("fit not intercepted" in n for n in R.notes):
@@ -1314,7 +1393,8 @@ def reproject_crs_part(R: Run, mods):
                 R.oracle(tuple(out.shape) == kw["shape"], "output-geobox|shape-request", case, f"asked {kw['shape']} got {tuple(out.shape)}")
 
     # ---- (1) random generator
-    n_da, n_ds, n_og = R.pick(30, 400), R.pick(12, 160), R.pick(100, 1200)
+    gcp_ok = gcp_private(gcp_geobox(__import__("random").Random(1), mods, exact=True)) is not None
+    n_da, n_ds, n_og = R.pick(14, 400), R.pick(6, 160), R.pick(30, 1200)
     for it in range(n_da + n_ds + n_og):
         kind = "da" if it < n_da else "ds" if it < n_da + n_ds else "og"
         scrs = rng.choice(crss)
@@ -1322,7 +1402,14 @@ def reproject_crs_part(R: Run, mods):
         if kind == "og" and rng.random() < 0.12:
             src = GeoBox(src.shape, src.affine, None)  # not reprojectable: assert / ValueError branches
         own = rng.random() < 0.35
+        gcp_src = False
         dst = scrs if own else rng.choice([c for c in crss if c != scrs] + (["utm", "UTM-N", "utm-s"] if scrs != "EPSG:32633" else ["utm"]))
+        if gcp_ok and rng.random() < 0.2:
+            # GCP-registered source (never the identity path: compute_output_geobox's fast path is for GeoBox only)
+            src = gcp_geobox(rng, mods, exact=True)
+            scrs = f"EPSG:{src.crs.epsg}"
+            dst = scrs if own else rng.choice([c for c in ("EPSG:4326", "EPSG:3857") if c != scrs])
+            gcp_src = True
         nt = rng.choice([None, None, 2])
         nb = rng.choice([None, None, 2])
         dims, sizes = sizes_of(src, nt, nb)
@@ -1332,12 +1419,15 @@ def reproject_crs_part(R: Run, mods):
         if any(v is None or len(v) == 0 for v in idx.values()):
             ops = []
         cn = rng.choice(["spatial_ref", "spatial_ref", "crs", "foo"])
-        attrs = {k: v for k, v in (("crs", "stale"), ("grid_mapping", cn), ("epsg", 1), ("nodata", 0), ("_FillValue", 0))
+        dtype = rng.choice(["float32", "float32", "uint8", "int16"])
+        attrs = {k: v for k, v in (("crs", "stale"), ("grid_mapping", cn), ("epsg", 1), ("nodata", rng.choice([0, 0, 200, -9999])),
+                                   ("_FillValue", rng.choice([0, 255, -1])))
                  if rng.random() < 0.4}
         attrs["keep"] = "me"
-        dask = rng.random() < 0.25
+        # dask-backed GCP sources: the dask warp asserts a linear source (probed once below, known finding) -> numpy here
+        dask = rng.random() < 0.25 and not (gcp_src and kind != "og")
         try:
-            arr = apply_ops(make_xx(oxr, src, nt, nb, dask, dtype="float32", cn=cn, **attrs), ops)
+            arr = apply_ops(make_xx(oxr, src, nt, nb, dask, dtype=dtype, cn=cn, **attrs), ops)
             gb = arr.odc.geobox
             base = abs(arr.odc.output_geobox(dst).resolution.x) if (gb is not None and gb.crs is not None) else 1024.0
         except Exception as e:  # pylint: disable=broad-except
@@ -1349,7 +1439,7 @@ def reproject_crs_part(R: Run, mods):
             kw, gtoks = {}, "- - - - - -"  # no option passed at all: every default comes from the code
         extra, etoks = {}, []
         if kind != "og":
-            v = rng.choice([_ABSENT, _ABSENT, None, 0, 255])
+            v = rng.choice([_ABSENT, _ABSENT, None, 0, 255, -1, 70000])
             if v is not _ABSENT:
                 extra["src_nodata"] = v
                 etoks.append("src_nodata=" + ("none" if v is None else f"num:{v}"))
@@ -1359,18 +1449,52 @@ def reproject_crs_part(R: Run, mods):
             if rng.random() < 0.5:
                 etoks.reverse()
                 extra = dict(reversed(list(extra.items())))
-        dst_nodata = rng.choice([None, None, 7]) if kind == "da" else None
+        dst_nodata = rng.choice([None, None, 7, 7, 300, -5]) if kind == "da" else None
+        if kind == "da" and it < 4 and not gcp_src:
+            # fixed corner, every run: LAZY (dask-backed) integer sources with a nodata the pixel type cannot hold — the
+            # refusal must not depend on the backing store (the numpy path would fail inside GDAL anyway)
+            dask, dtype = True, ("uint8", "int16")[it % 2]
+            arr = apply_ops(make_xx(oxr, src, nt, nb, True, dtype=dtype, cn=cn, **attrs), [o for o in ops if o[0] != "type"])
+            ops = [o for o in ops if o[0] != "type"]
+            extra, etoks = ({"src_nodata": 70000}, ["src_nodata=num:70000"]) if it >= 2 else ({}, [])
+            dst_nodata = None if it >= 2 else (300 if dtype == "uint8" else -40000)
+            kw, gtoks = {}, "- - - - - -"
         post = [rng.choice([("arith",), ("type",), ("pickle", rng.choice(RT_KINDS), rng.random() < 0.6)]) for _ in range(rng.choice([0, 0, 1]))] if kind == "da" else []
         dsattrs = [k for k in ("crs", "title", "grid_mapping") if rng.random() < 0.4] if kind == "ds" else []
         one(kind, src, own, dst, nt, nb, ops, cn, attrs, dask, kw, gtoks, base, extra, etoks, dst_nodata, post, dsattrs, rng.random() < 0.5,
             "random", arr=arr)
+
+    # dask-backed GCP source: the claim is independent of the backing store (numpy works); probed every run
+    if gcp_ok:
+        gg = gcp_geobox(__import__("random").Random(3), mods, exact=True, allow_slice=False)
+        case = {"reproject": "gcp-source", "src": src_s(gg), "dst": "EPSG:3857", "dask": True}
+        try:
+            want = make_xx(oxr, gg, None, None, False, dtype="float32").odc.reproject("EPSG:3857").odc.geobox
+            got = make_xx(oxr, gg, None, None, True, dtype="float32").odc.reproject("EPSG:3857").odc.geobox
+            R.oracle(got == want, "reproject|gcp-source|dask", case, f"dask-backed result sits on {got!r}, numpy-backed on {want!r}")
+        except Exception as e:  # pylint: disable=broad-except
+            R.oracle(False, "reproject|gcp-source|dask", case,
+                     f"numpy-backed GCP source reprojects, dask-backed raises {type(e).__name__}: {str(e)[:100]}")
+
+    # GCP source, own CRS and another one, no options (the corner where a linear source takes the identity path)
+    if gcp_ok:
+        gg = gcp_geobox(__import__("random").Random(4), mods, exact=True)
+        own_crs = f"EPSG:{gg.crs.epsg}"
+        for kind in ("og", "da", "ds"):
+            for dst in (own_crs, "EPSG:3857" if own_crs != "EPSG:3857" else "EPSG:4326"):
+                try:
+                    base = abs(make_xx(oxr, gg, None, None, False, dtype="float32").odc.output_geobox(dst).resolution.x)
+                except Exception:  # pylint: disable=broad-except
+                    base = 1.0
+                one(kind, gg, dst == own_crs, dst, None, None, [], "spatial_ref", {"keep": "me"}, False, {}, "- - - - - -", base, {}, [], None, [],
+                    [], False, "gcp-defaults")
 
     # ---- (2) the option matrix: tight x anchor kind x resolution kind x shape, own CRS and another CRS, DataArray and Dataset.
     # Own CRS: the whole matrix (the neighbourhood of the identity fast path — resolution in {absent, auto, same}, shape in
     # {absent, None} — for BOTH container types, the rest alternating; quick tier: every second of the rest, rotating with
     # the seed).  Other CRS: an orthogonal sample (every tight x anchor pair, resolution / shape cycling).
     tights = [_ABSENT, False, True]
-    anchors = [_ABSENT, "default", "edge", "center", "floating", (0.25, 0.75), (0.25, 0.25)]
+    anchors = [_ABSENT, "default", "edge", "center", "floating", (0.25, 0.75)]
     shapes = [_ABSENT, None, (3, 5), 7]
     srcs = {c: dyadic_src(rng, Affine, GeoBox, c, kinds=(k,)) for c, k in (("EPSG:4326", "nup"), ("EPSG:32633", "mirror"), ("EPSG:3857", "nup"))}
     arrs = {c: make_xx(oxr, g, None, None, False, dtype="float32", keep="me") for c, g in srcs.items()}
@@ -1381,14 +1505,16 @@ def reproject_crs_part(R: Run, mods):
         r = abs(src.resolution.x) * [1, 2, 0.5][(i // 3) % 3]
         resolution = [_ABSENT, "auto", "same", "fit", r, resxy_(r, -r)][ri]
         near_fast_path = ri <= 2 and sh in (_ABSENT, None)
-        if not near_fast_path and R.quick and (i + R.seed) % 2:
+        if not near_fast_path and R.quick and (i + R.seed) % 8:
             continue
         kw, gtoks = grid_kw_of(c11, c11mods, {"tight": t, "anchor": a, "resolution": resolution, "shape": sh})
-        for kind in (("da", "ds") if near_fast_path else (("da", "ds")[i % 2],)):
+        # both container types where tight meets an explicit anchor next to the identity fast path (and on the fast path itself)
+        both = near_fast_path and (not R.quick or t is True or a in (_ABSENT, "default"))
+        for kind in (("da", "ds") if both else (("da", "ds")[i % 2],)):
             one(kind, src, True, scrs, None, None, [], "spatial_ref", {"keep": "me"}, False, kw, gtoks, abs(src.resolution.x), {}, [], None, [],
                 [], False, "matrix", arr=arrs[scrs], light=True)
             n_own += 1
-    rounds = R.pick(2, 12)
+    rounds = R.pick(1, 12)
     for rd in range(rounds):
         for i, (t, a) in enumerate(itertools.product(tights, anchors)):
             scrs = crss[(i + rd) % 3]
@@ -1456,7 +1582,7 @@ def options_part(R: Run, mods):
     # inputs are built (from the footprint bbox the code will see) so that the footprint overshoots an output grid
     # line by 0.1 .. 0.9 % of a pixel: tol=0 and the default tol=0.01 then give different grids
     effective = 0
-    for it in range(R.pick(26, 200)):
+    for it in range(R.pick(12, 200)):
         if rng.random() < 0.5:
             r = rng.choice([10, 30, 0.5])
             src = GeoBox((rng.randint(5, 25), rng.randint(5, 30)), Affine(r, 0, 500000 + r * rng.randint(0, 500) + rng.uniform(0, r), 0, -r,
@@ -1554,7 +1680,7 @@ def reproject_part(R: Run, mods):
     # attributes as file loaders leave them; `grid_mapping` names the existing CRS coordinate (a dangling
     # name would make the *source* un-registered once the encoding is lost, which is not this property)
     stale = {"crs": "EPSG:9999", "crs_wkt": "stale", "grid_mapping": "spatial_ref", "gcps": "stale", "epsg": 1}
-    for it in range(R.pick(40, 400)):
+    for it in range(R.pick(22, 400)):
         scrs = rng.choice(["EPSG:4326", "EPSG:32633", "EPSG:3857", "EPSG:3577"])
         src = src_box(scrs)
         if scrs == "EPSG:3577":
@@ -1664,7 +1790,7 @@ def reproject_part(R: Run, mods):
     from odc.geo.crs import CRS as _CRS
     from odc.geo.types import resxy_ as _resxy
 
-    for it in range(R.pick(16, 140)):
+    for it in range(R.pick(10, 140)):
         scrs = rng.choice(["EPSG:4326", "EPSG:32633", "EPSG:3857"])
         src = src_box(scrs)
         own = rng.random() < 0.5
